@@ -380,6 +380,9 @@ func (ba *BA) lin0(v ssa.Value) Lin {
 		return ba.atom(name, nn || isUnsigned(x.Type()))
 	case *ssa.Extract:
 		return ba.atom("v:"+x.Name(), isUnsigned(x.Type()))
+	case *ssa.Field:
+		// a field of an immutable struct value: the same (value, field) is the same number wherever it is read
+		return ba.atom(fmt.Sprintf("sf:%s.%d", x.X.Name(), x.Field), isUnsigned(x.Type()))
 	}
 	return ba.opaque(v)
 }
@@ -898,6 +901,13 @@ func (ba *BA) stableFieldKey(load *ssa.UnOp) (string, bool) {
 		rn = fmt.Sprintf("P%d", ba.paramIndex(r))
 	case *ssa.Global:
 		rn = "G:" + r.Name()
+	case *ssa.Alloc:
+		// a local struct written exactly once, as a whole, before the load and never written through a field address or
+		// handed out by pointer: its fields are constants of the function from that store on
+		if !ba.singleWholeStore(r, load) {
+			return "", false
+		}
+		return "L:" + r.Name() + "." + strings.Join(names, "."), true
 	default:
 		return "", false
 	}
@@ -1035,4 +1045,31 @@ func (ba *BA) upperAtom(a string, b *ssa.BasicBlock, extra []Lin, skip string, d
 		}
 	}
 	return Lin{}, false
+}
+
+// singleWholeStore: al is stored to exactly once (a whole-value store dominating load), every other use is a load or a
+// field address that is only loaded from.
+func (ba *BA) singleWholeStore(al *ssa.Alloc, load *ssa.UnOp) bool {
+	var st *ssa.Store
+	for _, r := range refs(al) {
+		switch u := r.(type) {
+		case *ssa.Store:
+			if u.Addr != ssa.Value(al) || st != nil {
+				return false
+			}
+			st = u
+		case *ssa.UnOp:
+			// whole-value load
+		case *ssa.FieldAddr:
+			for _, r2 := range refs(u) {
+				if l2, ok := r2.(*ssa.UnOp); !ok || l2.Op != token.MUL {
+					return false
+				}
+			}
+		case *ssa.DebugRef:
+		default:
+			return false
+		}
+	}
+	return st != nil && instrDominates(st, load)
 }
